@@ -139,7 +139,7 @@ def run_case(ctx, k, rng):
     if rng.random() < 0.2 and len(F) and len(G):
         Fi = np.round(F / scale * 3); Fi[:, 1] = np.maximum(Fi[:, 1], Fi[:, 0])
         Gf = G / scale * 3
-        forms = [Fi.astype(np.int64), Fi.astype(int).tolist()][int(rng.integers(0, 2))]
+        forms = [vforms.as_int_dtype(rng, Fi)[0], Fi.astype(int).tolist()][int(rng.integers(0, 2))]
         sg = sigma / (scale ** 2) * 9 if sigma < 1e-3 or sigma > 1e3 else sigma
         ctx.set_payload({"dgm1": forms, "dgm2": Gf, "sigma": sg})
         try:
@@ -150,6 +150,19 @@ def run_case(ctx, k, rng):
                       floats=a3, ref_sq=r2m)
         except Exception as e:
             ctx.exception("integer / list forms agree with float arrays in both argument positions", e)
+        ctx.set_payload({"dgm1": F, "dgm2": G, "sigma": sigma})
+    if rng.random() < 0.06:
+        ia, fa_, da = vforms.near_limit_int_diagram(rng, int(rng.integers(1, 6)), positive_length=False)
+        ib, fb_, db = vforms.near_limit_int_diagram(rng, int(rng.integers(1, 6)), dtypes=(np.dtype(da).type,), positive_length=False)
+        sg = float(rng.choice([0.05, 1.0])) * float(np.max(np.abs(fa_))) ** 2
+        ctx.set_payload({"dgm1": ia, "dgm2": ib, "sigma": sg, "dtype": da})
+        try:
+            r2n, t2n = ref_d2(fa_, fb_, sg)
+            vi, vf = d(ia, ib, sg), d(fa_, fb_, sg)
+            ctx.check("narrow integer dtype near its limits == float64 of the same values", fin(vi) and fin(vf) and abs(float(vi) ** 2 - r2n) <= t2n
+                      and abs(float(vf) ** 2 - r2n) <= t2n, int_form=vi, float_form=vf, ref_sq=r2n, dtype=da)
+        except Exception as e:
+            ctx.exception("narrow integer dtype near its limits == float64 of the same values", e)
         ctx.set_payload({"dgm1": F, "dgm2": G, "sigma": sigma})
     try:
         sub = int(rng.integers(0, 5))
